@@ -51,10 +51,16 @@ class Terms:
         if depth > 3:
             return None
         g = self.u.function_for_decl(callee)
-        if g is None or g.record is not None or g.is_lambda or len(g.params) != len(args):
+        if g is None or g.is_lambda or len(g.params) != len(args) or not g.tname.startswith('BaseGraph::'):
             return None
-        if self.u.decl(callee).get('crtype') != 'bool' or not g.tname.startswith('BaseGraph::'):
-            return None
+        crt = self.u.decl(callee).get('crtype')
+        if g.record is None:
+            if crt != 'bool':
+                return None
+        else:
+            # a non-public static member that is one arithmetic expression of its parameters
+            if not g.is_static or g.access == 'public' or crt not in ('bool', 'unsigned int', 'unsigned long', 'int', 'long', 'double'):
+                return None
         body = g.nodes[g.body] if g.body is not None and g.body >= 0 else None
         if body is None or body['k'] != 'CompoundStmt' or len(body.get('c', [])) != 1:
             return None
@@ -73,6 +79,28 @@ class Terms:
                 return sub[t]
             return tuple(S(x) for x in t)
         return S(e)
+
+    INTEGRAL = ('unsigned int', 'int', 'unsigned long', 'long', 'unsigned long long', 'long long', 'bool', 'char', 'unsigned char',
+                'short', 'unsigned short', 'size_t')
+
+    def _neg(self, nid, rr, depth):
+        """term of !expr with the negation pushed inwards: !(A || B) = !A && !B, !(A && B) = !A || !B, and - for operands
+        of integral type only (no NaN) - !(a < b) = a >= b"""
+        f = self.fn
+        i = f.strip(nid)
+        n = f.nodes[i]
+        if n['k'] == 'ParenExpr':
+            return self._neg(n['c'][0], rr, depth)
+        if n['k'] == 'BinaryOperator' and n.get('op') in ('||', '&&'):
+            return ('bin', '&&' if n['op'] == '||' else '||', self._neg(n['c'][0], rr, depth), self._neg(n['c'][1], rr, depth))
+        if n['k'] == 'BinaryOperator' and n.get('op') in ('<', '>', '<=', '>='):
+            ts = [f.nodes[f.strip(c)].get('t', '').replace('const ', '') for c in n['c']]
+            if all(t0 in self.INTEGRAL for t0 in ts):
+                flip = {'<': '>=', '>': '<=', '<=': '>', '>=': '<'}[n['op']]
+                return _canon_cmp(('bin', flip, self.t(n['c'][0], rr, depth), self.t(n['c'][1], rr, depth)))
+        if n['k'] == 'UnaryOperator' and n.get('op') == '!':
+            return self.t(n['c'][0], rr, depth)
+        return _not(self.t(nid, rr, depth))
 
     def t(self, nid, resolve_refs=True, depth=0):
         if nid is None or nid < 0:
@@ -133,7 +161,7 @@ class Terms:
         if k == 'CharacterLiteral':
             return ('int', n.get('v', 0))
         if k in ('BinaryOperator', 'CompoundAssignOperator'):
-            return ('bin', n['op'], T(n['c'][0]), T(n['c'][1]))
+            return _canon_cmp(('bin', n['op'], T(n['c'][0]), T(n['c'][1])))
         if k == 'UnaryOperator':
             if n['op'] == '*':
                 inner = T(n['c'][0])
@@ -141,7 +169,7 @@ class Terms:
                     return inner
                 return ('deref', inner)
             if n['op'] == '!':
-                return _not(T(n['c'][0]))
+                return self._neg(n['c'][0], rr, depth)
             return ('un', n['op'], bool(n.get('postfix')), T(n['c'][0]))
         if k == 'ConditionalOperator':
             return ('cond', T(n['cond']), T(n['then']), T(n['else']))
@@ -165,7 +193,7 @@ class Terms:
             if op == '()':
                 return ('mcall', cal['tname'] if cal else '?', T(a[0]), tuple(T(x) for x in a[1:]))
             if len(a) == 2 and op in ('==', '!=', '<', '>', '<=', '>=', '=', '+=', '-=', '+', '-', '*', '<<', '>>'):
-                return ('bin', op, T(a[0]), T(a[1]))
+                return _canon_cmp(('bin', op, T(a[0]), T(a[1])))
             return ('opcall', op, tuple(T(x) for x in a))
         if k == 'CXXMemberCallExpr':
             cal = self.u.decl(n.get('callee', -1))
@@ -209,6 +237,50 @@ class Terms:
             cs = [c for c in n['c'] if c >= 0]
             return T(cs[0]) if cs else ('?', k, nid)
         return ('?', k, nid)
+
+
+_MIRROR = {'<': '>', '>': '<', '<=': '>=', '>=': '<=', '==': '==', '!=': '!='}
+
+
+def _is_const_like(t):
+    """literals, end() iterators, npos and the library's sentinels: the side a comparison is conventionally against"""
+    x = t
+    while isinstance(x, tuple) and x and x[0] in ('cast', 'conv') and len(x) == 3:
+        x = x[2]
+    if not isinstance(x, tuple) or not x:
+        return False
+    if x[0] in ('int', 'float', 'bool', 'str'):
+        return True
+    if x[0] == 'mcall' and x[1].endswith(('::end', '::cend')) and not x[3]:
+        return True
+    if x[0] in ('global', 'member') and str(x[-1]).endswith(('npos', 'VERTEX_MAX', 'INFINITY')):
+        return True
+    return False
+
+
+def _is_index_like(t):
+    x = t
+    while isinstance(x, tuple) and x and x[0] in ('cast', 'conv') and len(x) == 3:
+        x = x[2]
+    return isinstance(x, tuple) and bool(x) and x[0] in ('var', 'deref', 'member', 'field')
+
+
+def _is_size_like(t):
+    x = t
+    while isinstance(x, tuple) and x and x[0] in ('cast', 'conv') and len(x) == 3:
+        x = x[2]
+    return isinstance(x, tuple) and len(x) == 4 and x[0] == 'mcall' and x[1].endswith(('::getSize', '::size')) and not x[3]
+
+
+def _canon_cmp(t):
+    """comparisons are written with the constant-like operand on the right: `0 < n` is read as `n > 0`,
+    `end() != it` as `it != end()` - so that rules need one orientation only"""
+    if t[1] in _MIRROR and _is_const_like(t[2]) and not _is_const_like(t[3]):
+        return ('bin', _MIRROR[t[1]], t[3], t[2])
+    # `g.getSize() <= v` is read as `v >= g.getSize()` (sizes are what indices are compared against)
+    if t[1] in _MIRROR and _is_size_like(t[2]) and _is_index_like(t[3]):
+        return ('bin', _MIRROR[t[1]], t[3], t[2])
+    return t
 
 
 def _not(t):
